@@ -1,19 +1,410 @@
-//! C14 (stub, to be filled in)
+//! C14 - every error code maps to the ESR bit of its IEEE 488.2 class.
+//! (a) the error code is a *fault parameter*: all 65 536 handler-raised codes are swept through
+//! the real path run -> handle_error -> push_error -> *ESR? / SYST:ERR?; (b) the class of
+//! library-raised errors is monitored over messages carrying catalogued faults.
+
+use crate::exec::{SendObs, World};
+use crate::gen::*;
+use crate::model::*;
+use crate::props::c13::{gen_reg_value, wrong_type_elem, HistGen};
+use crate::props::c15::fresh_shadow;
 use crate::props::*;
+use crate::rng::{mix, Rng};
 use crate::runner::{Finding, Prop, Tier};
 use crate::stats::Stats;
+use crate::tree::gen_tree;
 use crate::types::*;
 
 pub struct C14;
 
-impl Prop for C14 {
-    fn id(&self) -> &'static str { "C14" }
-    fn level(&self) -> &'static str { "exploration" }
-    fn rule(&self) -> &'static str { "" }
-    fn assumptions(&self) -> Vec<String> { vec![] }
-    fn runs(&self, _tier: Tier) -> u64 { 0 }
-    fn gen(&self, seed: u64, run: u64, _tier: Tier) -> Trace {
-        base_trace("C14", seed, run, "", Config { queue: QueueCfg::Vec, controllers: 1, tree: TreeDesc::default() })
+const SWEEP: u64 = 65_536;
+
+fn sweep_tree() -> TreeDesc {
+    TreeDesc {
+        mandated: true,
+        app: vec![TNode::Leaf {
+            name: "RAISe".into(),
+            default: false,
+            h: 0,
+        }],
     }
-    fn check(&self, _trace: &Trace, _stats: &mut Stats) -> Vec<Finding> { vec![] }
+}
+
+impl Prop for C14 {
+    fn id(&self) -> &'static str {
+        "C14"
+    }
+    fn level(&self) -> &'static str {
+        "fault_enumeration"
+    }
+    fn rule(&self) -> &'static str {
+        "runs 0..65535: the handler-raised error number is swept over ALL 65 536 i16 values (the standard error when the number is defined, a custom one otherwise, with/without extended text); each run sends the failing message, then *ESR? and SYST:ERR? and compares with the class table of the statement. Runs >= 65536: monitor - messages carrying one catalogued fault (37 syntax faults, undefined header, arity, wrong data type, out-of-range value, exhausted response buffer) whose library-raised error must lie in the command-error resp. execution-error class. distinct_nontrivial = distinct error numbers swept + distinct (fault kind, observed code) pairs"
+    }
+    fn assumptions(&self) -> Vec<String> {
+        vec!["the ESR bit is observed end to end through *ESR? on a device wired in the documented way".into()]
+    }
+    fn runs(&self, tier: Tier) -> u64 {
+        match tier {
+            Tier::Quick => SWEEP + 15_000,
+            Tier::Thorough => SWEEP + 600_000,
+            Tier::Tiny => 300,
+        }
+    }
+    fn required_probes(&self) -> Vec<String> {
+        let v: Vec<&str> = vec![
+            "class_none",
+            "class_command",
+            "class_execution",
+            "class_device",
+            "class_query",
+            "class_power_on",
+            "class_user_request",
+            "class_request_control",
+            "class_operation_complete",
+            "class_positive",
+            "class_below_minus_899",
+            "edge_minus_99",
+            "edge_minus_100",
+            "edge_minus_199",
+            "edge_minus_200",
+            "edge_minus_899",
+            "edge_minus_900",
+            "i16_min",
+            "i16_max",
+            "library_command_error",
+            "library_execution_error_range",
+            "library_execution_error_buffer",
+        ];
+        v.into_iter().map(String::from).collect()
+    }
+
+    fn gen(&self, seed: u64, run: u64, tier: Tier) -> Trace {
+        if run < SWEEP && tier != Tier::Tiny || tier == Tier::Tiny && run < 200 {
+            // ---- sweep: run index <-> error number (Tiny: a sample around the class edges)
+            let code: i16 = if tier == Tier::Tiny {
+                let edges: [i16; 20] = [0, -1, -99, -100, -101, -199, -200, -299, -300, -399, -400, -499, -500, -600, -700, -800, -899, -900, i16::MIN, i16::MAX];
+                if (run as usize) < edges.len() {
+                    edges[run as usize]
+                } else {
+                    (run as i64 * 327 - 32768) as i16
+                }
+            } else {
+                (run as i64 - 32768) as i16
+            };
+            let mut rng = Rng::new(mix(seed, "C14-sweep", run));
+            let cfg = Config {
+                queue: QueueCfg::Vec,
+                controllers: 1,
+                tree: sweep_tree(),
+            };
+            let mut t = base_trace("C14", seed, run, "sweep", cfg.clone());
+            let tc = TreeCtx::new(&cfg.tree);
+            let ext = if rng.chance(1, 3) { Some(rng.below(16) as u8) } else { None };
+            let mut u = Unit {
+                path: vec![(*rng.pick(&["RAIS", "raise", "RAISE", "rais"])).to_string()],
+                query: rng.chance(1, 2),
+                ..Default::default()
+            };
+            u.plan.fail = Some(PlanFail {
+                err: ErrSpec {
+                    code,
+                    ext,
+                    msg: rng.below(8) as u8,
+                },
+                phase: Phase::Before,
+            });
+            let send = |m: Msg| {
+                Step::Send(SendStep {
+                    ctl: 0,
+                    fmt: FmtCfg::Vec,
+                    msg: m,
+                    corrupt: vec![],
+                })
+            };
+            t.steps.push(send(Msg {
+                units: vec![u],
+                end: B::new(),
+            }));
+            let esr = contrib_unit(&mut rng, &tc, Contrib::Esr, true, vec![], &[], true);
+            t.steps.push(send(Msg {
+                units: vec![esr],
+                end: B::new(),
+            }));
+            let next = contrib_unit(&mut rng, &tc, Contrib::SystErrNext, true, vec![], &[], true);
+            t.steps.push(send(Msg {
+                units: vec![next],
+                end: B::new(),
+            }));
+            return t;
+        }
+        // ---- monitor: library-raised errors
+        let mut rng = Rng::new(mix(seed, "C14-mon", run));
+        let mut trng = Rng::new(mix(seed, "C14-tree", run / 64));
+        let tree = gen_tree(&mut trng, true, 3, 3, 1);
+        let cfg = Config {
+            queue: QueueCfg::Vec,
+            controllers: 1,
+            tree,
+        };
+        let mut t = base_trace("C14", seed, run, "monitor", cfg.clone());
+        let tc = TreeCtx::new(&cfg.tree);
+        let shadow = fresh_shadow(&cfg);
+        let mut g = HistGen {
+            rng: &mut rng,
+            tc,
+            uniq: 0,
+            shadow,
+        };
+        let n = g.rng.urange(1, 6);
+        for _ in 0..n {
+            let mut fmt = FmtCfg::Vec;
+            let msg = match g.rng.below(8) {
+                0 | 1 | 2 | 3 => {
+                    let mut m = g.app_msg(3);
+                    if m.units.is_empty() {
+                        continue;
+                    }
+                    let k = g.rng.usize_below(m.units.len());
+                    // library-raised only: no handler-raised errors here
+                    loop {
+                        let mut mm = m.clone();
+                        let tag = g.break_unit(&mut mm, k);
+                        if tag != "F1_handler_error" {
+                            m = mm;
+                            break;
+                        }
+                    }
+                    m
+                }
+                4 | 5 => {
+                    let c = *g.rng.pick(&[
+                        Contrib::Ese,
+                        Contrib::Sre,
+                        Contrib::StatReg(Reg::Oper, RegCmd::Enable),
+                        Contrib::StatReg(Reg::Ques, RegCmd::Ptr),
+                    ]);
+                    let max = if matches!(c, Contrib::Ese | Contrib::Sre) { 255 } else { 65535 };
+                    let p = if g.rng.chance(1, 2) {
+                        let v = max + 1 + g.rng.below(5000);
+                        if g.rng.chance(1, 3) {
+                            Elem::NonDec {
+                                radix: 'H',
+                                digits: format!("{:X}", v),
+                            }
+                        } else {
+                            Elem::Dec(format!("{}", v))
+                        }
+                    } else if g.rng.chance(1, 2) {
+                        wrong_type_elem(g.rng)
+                    } else {
+                        gen_reg_value(g.rng, max).0
+                    };
+                    g.single(c, false, vec![p])
+                }
+                _ => {
+                    // response buffer exhausted
+                    let m = g.single(Contrib::Idn, true, vec![]);
+                    fmt = FmtCfg::Array {
+                        cap: g.rng.usize_below(crate::device::IDN_RESPONSE.len() + 1),
+                    };
+                    m
+                }
+            };
+            if msg.units.is_empty() {
+                continue;
+            }
+            t.steps.push(Step::Send(SendStep {
+                ctl: 0,
+                fmt,
+                msg,
+                corrupt: vec![],
+            }));
+        }
+        t
+    }
+
+    fn check(&self, trace: &Trace, stats: &mut Stats) -> Vec<Finding> {
+        if trace.mode == "sweep" {
+            return check_sweep(trace, stats);
+        }
+        struct H;
+        impl StepHandler for H {
+            fn on_send(&mut self, world: &mut World, before: &ModelState, i: usize, s: &SendStep, o: &SendObs, stats: &mut Stats, out: &mut Vec<Finding>) {
+                let pred = predict(&world.root, before, s, Reading::Condition);
+                if !pred.structural {
+                    return;
+                }
+                let kind: String = s
+                    .msg
+                    .units
+                    .iter()
+                    .find_map(|u| u.hfault.as_ref().map(|h| h.0.clone()).or(u.pfault.as_ref().map(|p| p.kind.clone())))
+                    .unwrap_or_else(|| match &pred.result {
+                        Err(ExpErr::Code(c)) => format!("code{}", c),
+                        Err(ExpErr::ExecClass) => "value_out_of_range".into(),
+                        Err(ExpErr::CommandClass) => "wrong_type".into(),
+                        _ => "none".into(),
+                    });
+                match (&pred.result, &o.result) {
+                    (Err(exp), Err(e)) => {
+                        stats.state_str(&format!("{}|{}", kind, e.code));
+                        let want_cmd = matches!(exp, ExpErr::CommandClass | ExpErr::Code(-113) | ExpErr::Code(-108) | ExpErr::Code(-109));
+                        let want_exec = matches!(exp, ExpErr::ExecClass | ExpErr::Code(-225));
+                        if want_cmd {
+                            stats.probe("library_command_error");
+                            if !is_command_error(e.code) {
+                                out.push(Finding::new(
+                                    "C14.library_error_class",
+                                    format!("syntax_or_type_fault_reported_as_{}", e.code).replace('-', "m"),
+                                    i,
+                                    format!("message {} ({}): failed with {:?}; syntax, header and data-type faults belong to -100..-199", describe_msg(s), kind, e),
+                                ));
+                            }
+                        } else if want_exec {
+                            stats.probe(if *exp == ExpErr::Code(-225) { "library_execution_error_buffer" } else { "library_execution_error_range" });
+                            if !is_execution_error(e.code) {
+                                out.push(Finding::new(
+                                    "C14.library_error_class",
+                                    format!("value_fault_reported_as_{}", e.code).replace('-', "m"),
+                                    i,
+                                    format!("message {} ({}): failed with {:?}; value faults belong to -200..-299", describe_msg(s), kind, e),
+                                ));
+                            }
+                        }
+                    }
+                    _ => {
+                        stats.bump("result_not_as_predicted_skipped");
+                    }
+                }
+            }
+        }
+        drive(trace, stats, &mut H)
+    }
+}
+
+fn check_sweep(trace: &Trace, stats: &mut Stats) -> Vec<Finding> {
+    let mut out = Vec::new();
+    let mut world = match World::new(&trace.config) {
+        Some(w) => w,
+        None => return vec![Finding::new("harness.config", "unsupported_config", 0, "config")],
+    };
+    let sends: Vec<&SendStep> = trace
+        .steps
+        .iter()
+        .filter_map(|s| match s {
+            Step::Send(x) => Some(x),
+            _ => None,
+        })
+        .collect();
+    if sends.len() != 3 {
+        return out;
+    }
+    let spec = match sends[0].msg.units.first().and_then(|u| u.plan.fail.as_ref()) {
+        Some(f) => f.err,
+        None => return out,
+    };
+    let code = spec.code;
+    stats.fault("F12_error_code_sweep");
+    stats.state(&code.to_le_bytes());
+    let bit = class_bit(code);
+    stats.probe(match bit {
+        0x00 => "class_none",
+        0x20 => "class_command",
+        0x10 => "class_execution",
+        0x08 => {
+            if code > 0 {
+                "class_positive"
+            } else if code < -899 {
+                "class_below_minus_899"
+            } else {
+                "class_device"
+            }
+        }
+        0x04 => "class_query",
+        0x80 => "class_power_on",
+        0x40 => "class_user_request",
+        0x02 => "class_request_control",
+        _ => "class_operation_complete",
+    });
+    match code {
+        -99 => stats.probe("edge_minus_99"),
+        -100 => stats.probe("edge_minus_100"),
+        -199 => stats.probe("edge_minus_199"),
+        -200 => stats.probe("edge_minus_200"),
+        -899 => stats.probe("edge_minus_899"),
+        -900 => stats.probe("edge_minus_900"),
+        i16::MIN => stats.probe("i16_min"),
+        i16::MAX => stats.probe("i16_max"),
+        _ => {}
+    }
+    // 1. the failing message
+    stats.add("steps", 3);
+    let o = world.exec_send(sends[0]);
+    log_obs(stats, &o);
+    if !universal(&o, 0, &mut out) {
+        return out;
+    }
+    match &o.result {
+        Err(e) => {
+            if e.code != code {
+                out.push(Finding::new(
+                    "C14.lookup",
+                    "error_reports_different_code",
+                    0,
+                    format!("handler raised error number {} but the returned error reports {} ({:?})", code, e.code, e),
+                ));
+                return out;
+            }
+        }
+        Ok(()) => {
+            out.push(Finding::new(
+                "C14.lookup",
+                "raised_error_lost",
+                0,
+                format!("handler raised error number {} but run returned Ok", code),
+            ));
+            return out;
+        }
+    }
+    // 2. *ESR?
+    let o = world.exec_send(sends[1]);
+    log_obs(stats, &o);
+    if !universal(&o, 1, &mut out) {
+        return out;
+    }
+    let want = format!("{}\n", bit).into_bytes();
+    if o.result.is_err() || o.out != want {
+        let got: Option<u32> = std::str::from_utf8(&o.out).ok().and_then(|s| s.trim().parse().ok());
+        let sig = match got {
+            Some(g) => format!("esr_{:#04x}_for_class_bit_{:#04x}", g, bit),
+            None => "esr_query_failed".to_string(),
+        };
+        out.push(Finding::new(
+            "C14.class_bit",
+            sig,
+            1,
+            format!("error number {}: *ESR? answered {:?} (result {:?}), the class bit is {}", code, B(o.out.clone()), o.result, bit),
+        ));
+    }
+    // 3. SYST:ERR?
+    let o = world.exec_send(sends[2]);
+    log_obs(stats, &o);
+    if !universal(&o, 2, &mut out) {
+        return out;
+    }
+    let prefix = format!("{},\"", code).into_bytes();
+    if o.result.is_err() || !o.out.starts_with(&prefix) {
+        out.push(Finding::new(
+            "C14.lookup",
+            "queue_item_reports_different_code",
+            2,
+            format!("error number {}: SYST:ERR? answered {:?} (result {:?})", code, B(o.out.clone()), o.result),
+        ));
+    }
+    if (trace.run < 2 || trace.run == 32768 - 113) && stats.samples.is_empty() {
+        stats.samples.push(
+            serde_json::to_string(&serde_json::json!({"error_number": code, "messages": sends.iter().map(|s| describe_msg(s)).collect::<Vec<_>>(), "esr_answer": format!("{}", bit)})).unwrap(),
+        );
+    }
+    out
 }
